@@ -1,5 +1,7 @@
 import DendroModel.Basic.Tree
 import DendroModel.Gen.Alphabets
+import DendroModel.Gen.Tables
+import DendroModel.Gen.C09Consts
 /-! C09 — executable model of character-matrix I/O.
 
 * state alphabets (`charstatemodel.StateAlphabet.__init__`, `full_symbol_state_map`, `match_state`) built from the
@@ -636,13 +638,46 @@ def linkBlocks (suppress : Option Bool) (nNamespaces : Nat) : Bool :=
   | none => nNamespaces > 1
   | some b => !b
 
-/-- `_get_block_title` de-duplication (repaired: titles compare case-insensitively, as the reader resolves them):
+/-! NEXUS token escaping of titles (`nexusprocessing.escape_nexus_token`, character class from the generated
+`Tables.protectDefault`) and the token the `NexusTokenizer` hands back -/
+def needsProtect (s : Str) : Bool := s.any (Tables.protectDefault.contains ·)
+
+/-- `"''".join(label.split("'"))` -/
+def dblQuotes : Str → Str
+  | [] => []
+  | c :: cs => if c == '\'' then '\'' :: '\'' :: dblQuotes cs else c :: dblQuotes cs
+
+/-- `escape_nexus_token(label, preserve_spaces, quote_underscores)` -/
+def escToken (preserveSpaces quoteUnderscores : Bool) (s : Str) : Str :=
+  if !preserveSpaces && !s.contains '_' && !needsProtect s then
+    s.map (fun c => if c == ' ' || c == '\t' then '_' else c)
+  else if needsProtect s || s.contains ' ' || (quoteUnderscores && s.contains '_') then
+    '\'' :: (dblQuotes s ++ ['\''])
+  else s
+
+def undbl : Str → Str
+  | [] => []
+  | [c] => [c]
+  | c :: d :: cs => if c == '\'' && d == '\'' then '\'' :: undbl cs else c :: undbl (d :: cs)
+
+/-- the token the tokenizer returns for one written token: a quoted token without its quotes (doubled quotes undone);
+an unquoted one with underscores read as blanks unless `preserve_underscores` -/
+def readToken (preserveUnderscores : Bool) (t : Str) : Str :=
+  match t with
+  | '\'' :: r => undbl r.dropLast
+  | _ => if preserveUnderscores then t else u2s t
+
+/-- what the (repaired) writer keys title uniqueness on: `title.upper().replace("_", " ")` — the reader matches titles
+without regard to case, and an unquoted underscore is read back as a blank -/
+def tkey (s : Str) : Str := u2s (upper s)
+
+/-- `_get_block_title` de-duplication (repaired: titles compare by `tkey`, i.e. as any reader setting will see them):
 `orig`, `orig.1`, `orig.2`, … until unused -/
 def freshTitle (used : List Str) (orig : Str) (idx fuel : Nat) (cand : Str) : Str :=
   match fuel with
   | 0 => cand
   | fuel + 1 =>
-    if used.any (fun u => upper u == upper cand) then freshTitle used orig (idx + 1) fuel (orig ++ ['.'] ++ natStr idx)
+    if used.any (fun u => tkey u == tkey cand) then freshTitle used orig (idx + 1) fuel (orig ++ ['.'] ++ natStr idx)
     else cand
 
 def assignTitles (used : List Str) : List Str → List Str
@@ -673,5 +708,21 @@ def writeLinks (suppress : Option Bool) (nsLabels : List Str) (blocks : List Nat
 
 def readLinks (w : List (Option Str) × List (Option Str)) : List (Except Err Nat) :=
   w.2.map (resolve w.1)
+
+/-- titles of the blocks that carry a label of their own (matrices, tree lists): they are drawn after the namespaces'
+titles from the same pool of used titles -/
+def blockTitles (nsLabels blockLabels : List Str) : List Str :=
+  (assignTitles [] (nsLabels ++ blockLabels)).drop nsLabels.length
+
+/-- the TITLE / LINK tokens as written under `preserve_spaces` / `unquoted_underscores` … -/
+def writeLinksE (preserveSpaces unquotedUnderscores : Bool) (suppress : Option Bool) (nsLabels : List Str) (blocks : List Nat) :
+    List (Option Str) × List (Option Str) :=
+  let w := writeLinks suppress nsLabels blocks
+  (w.1.map (Option.map (escToken preserveSpaces (!unquotedUnderscores))),
+   w.2.map (Option.map (escToken preserveSpaces (!unquotedUnderscores))))
+
+/-- … and as resolved by a reader with or without `preserve_underscores` -/
+def readLinksE (preserveUnderscores : Bool) (w : List (Option Str) × List (Option Str)) : List (Except Err Nat) :=
+  readLinks (w.1.map (Option.map (readToken preserveUnderscores)), w.2.map (Option.map (readToken preserveUnderscores)))
 
 end DendroModel.C09
